@@ -12,6 +12,8 @@ TRUSTED_BASE = [
     "Coq 8.16.1 kernel (coqc, vm_compute for the 256-entry table sweep); no native_compute",
     "translators/gen_rabin.py (EMPTY64, FP_TABLE, the per-byte step expression, Default, finish byte order are regenerated from rabin.rs on every run)",
     "hand-written model/CanonicalForm.v of canonical_form.rs, tied by the correspondence run (hook H1 text and fingerprint vs model)",
+    "documents: the specification's canonical form (PcfSpec.pcf) is computed by the model from the same TEXT the crate parses, read by the extracted JsonRead.json_of_text "
+    "(hand-written reader of serde_json's grammar, tied to serde_json by the C19 run); the generator's AST only cross-checks that reading",
     "extraction (ExtrOcamlBasic only, no Extract Constant/Inductive of ours) + ocaml/driver.ml (parsing and printing)",
     "Rust harness avrodrive (schema construction from the case format; `mutseq` applies the edits of a history through nodes_mut())",
 ]
@@ -185,7 +187,10 @@ def run(ctx):
     t2 = [D.to_text(d[2], rng) for d in docs]
     i1 = C.run_parallel(C.AVRODRIVE, ["parse " + C.hx(t) for t in t1])
     i2 = C.run_parallel(C.AVRODRIVE, ["parse " + C.hx(t) for t in t2])
-    sp = C.run_parallel(C.AVROMODEL, ["parse " + D.to_sx(d[1]) for d in docs])
+    # the model reads the same TEXT as the crate (JsonRead.json_of_text, then the parser and PcfSpec.pcf of the document it read)
+    sp = C.run_parallel(C.AVROMODEL, ["parse (text %s)" % C.hx(t) for t in t1])
+    import jsontext as JT
+    diffs.extend(JT.ast_cross_check(t1 + t2, [d[1] for d in docs] + [d[2] for d in docs], "C08 documents"))
     want_lines, want_idx = [], []
     for k, r in enumerate(sp):
         p = C.parse_sx(r)[0]
@@ -213,7 +218,8 @@ def run(ctx):
     #    specification checksum of the canonical form text reported at that same point)
     nh = 250 if ctx["tier"] == "quick" else 8000
     hs = histories(rng, nh)
-    pm = iter(C.run_parallel(C.AVROMODEL, ["parse " + D.to_sx(h[1][0]) for h in hs if h[1] is not None]))
+    pm = iter(C.run_parallel(C.AVROMODEL, ["parse (text %s)" % C.hx(h[1][1]) for h in hs if h[1] is not None]))
+    diffs.extend(JT.ast_cross_check([h[1][1] for h in hs if h[1] is not None], [h[1][0] for h in hs if h[1] is not None], "C08 history start documents"))
     hlines, hobs = [], []
     for nodes, start_json, hseed in hs:
         r2 = random.Random(hseed)
